@@ -79,8 +79,26 @@ XmlStructs ==
       l \in { <<>>, <<Str(<<>>)>>, <<Str(<<97>>), Str(<<60, 38, 34>>)>> },
       p \in { Null, Struct(<<Str(<<>>)>>), Struct(<<Str(<<38, 195, 169>>)>>) } }
 
+(* typed JSON destinations with interface{} positions:                       *)
+(*   anystruct  S{V interface{}; M map[string]interface{}; L []interface{}}  *)
+(*   namedmap   type M map[string]interface{}                                *)
+(*   namedlist  type L []interface{}                                         *)
+(* carrying the number tokens float64 cannot hold                            *)
+BigNums == { <<49, 50>>,
+             <<57,48,48,55,49,57,57,50,53,52,55,52,48,57,57,51>>,                        \* 2^53+1
+             <<49,56,52,52,54,55,52,52,48,55,51,55,48,57,53,53,49,54,49,53>>,            \* max uint64
+             <<48,46,49,50,51,52,53,54,55,56,57,48,49,50,51,52,53,54,55,56,57,48,49,50,51,52,53>>,
+             <<49,50,51,52,53,54,55,56,57,48,49,50,51,52,53,54,55,56,57,48,49,50,51,52,53,54,55,56,57,48>> }
+TypedPos == { Num(n) : n \in BigNums } \cup { Null, Str(<<97>>) }
+JsonTyped ==
+  { V("anystruct", <<>>, <<a, Map(<< <<107>> >>, <<b>>), List(<<c>>)>>, <<>>) : a \in TypedPos, b \in TypedPos, c \in TypedPos }
+  \cup { V("anystruct", <<>>, <<List(<<a>>), Map(<<>>, <<>>), List(<<>>)>>, <<>>) : a \in TypedPos }
+  \cup { V("namedmap", <<>>, <<a>>, << <<107>> >>) : a \in TypedPos }
+  \cup { V("namedmap", <<>>, <<a, List(<<b>>)>>, << <<60>>, <<107>> >>) : a \in TypedPos, b \in TypedPos }
+  \cup { V("namedlist", <<>>, <<a, b>>, <<>>) : a \in TypedPos, b \in TypedPos }
+
 RTValues(codec) ==
-  CASE codec = "json"  -> AnyValues(JsonAtoms) \cup JsonStructs
+  CASE codec = "json"  -> AnyValues(JsonAtoms) \cup JsonStructs \cup JsonTyped
     [] codec = "yaml"  -> AnyValues(YamlAtoms)
     [] codec = "xml"   -> XmlStructs
     [] codec = "text"  -> { Str(s) : s \in ValidStrings \cup BinaryStrings \cup TrickyStrings }
@@ -106,7 +124,7 @@ PickRT(codec) == \E r \in RTCfgs(codec) : kind' = "rt" /\ cfg' = r /\ out' = <<>
 Export == CSVWrite("%1$s", <<ToJson([kind |-> kind', cfg |-> cfg'])>>, IOEnv.OUT_FILE)
 
 GNext ==
-  \/ Next /\ (kind' \in {"consume", "produce"} => Export)
+  \/ Next /\ ((kind' \in {"consume", "produce"} \/ (kind' = "seq" /\ Len(cfg'.hist) >= 2)) => Export)
   \/ /\ kind = "none"
      /\ (PickRT("json") \/ PickRT("yaml") \/ PickRT("xml") \/ PickRT("text") \/ PickRT("bytes"))
      /\ Export
